@@ -1,7 +1,7 @@
 """Confirm sub-agent seeded changes in their scratch worktrees (/tmp/seed-<ID>) and, when confirmed, store them under
 /verif/seeded/<ID>-<n>/ (patch.diff, demo.py, meta.json).  Then (separately) tools_seedtest.sh runs the checks.
 
-    python tools_confirm_seeds.py C05 C07 ...
+    [SEED_PREFIX=/tmp/seed2- SEED_OFFSET=2] python tools_confirm_seeds.py C05 C07 ...
 
 Confirmation = (a) the demo passes on the clean worktree, (b) the patch applies, (c) the full existing test suite still
 passes with it, (d) the demo fails with it."""
@@ -27,7 +27,8 @@ def sh(cmd, cwd, timeout=2400):
 
 
 def confirm(pid):
-    wt = "/tmp/seed-%s" % pid
+    wt = os.environ.get("SEED_PREFIX", "/tmp/seed-") + pid
+    off = int(os.environ.get("SEED_OFFSET", "0"))       # round 2 changes are stored as <ID>-3, <ID>-4
     out = []
     if not os.path.isdir(os.path.join(wt, "OUT")):
         return [{"id": pid, "error": "no OUT directory"}]
@@ -65,7 +66,7 @@ def confirm(pid):
             sh(REBUILD, wt)
         r["confirmed"] = bool(r["demo_clean_exit"] == 0 and r["applies"] and "93 passed" in r["tests"] and r["demo_changed_exit"] != 0)
         if r["confirmed"]:
-            d = os.path.join(HERE, "seeded", "%s-%d" % (pid, n))
+            d = os.path.join(HERE, "seeded", "%s-%d" % (pid, n + off))
             os.makedirs(d, exist_ok=True)
             shutil.copy(patch, os.path.join(d, "patch.diff"))
             shutil.copy(demo, os.path.join(d, "demo.py"))
